@@ -938,8 +938,9 @@ class IntronPathProcessor:
         leftmost_start = all_possible_starts[0]
         if trusted and start <= leftmost_start[1] and leftmost_start[0] == VERTEX_read_start:
             return leftmost_start
-        elif not trusted and start >= leftmost_start[1] and \
+        elif not trusted and start >= leftmost_start[1] - self.params.apa_delta and \
                 (len(all_possible_starts) <= 1 or start < all_possible_starts[1][1]):
+            # mirror image of thread_ends: not further than apa_delta beyond the leftmost position
             return leftmost_start
         return None
 
